@@ -7,6 +7,7 @@ From Coq Require Import Reals ZArith String List Lra.
 From Verif.Sem Require Import Field Val RInst RLemmas.
 From Verif.C04 Require Import SemExt Vec Spec ProofsTrig ProofsGeom ProofsSpec.
 From Run Require Import GenUtils GenBeamline TieC04.
+Import ListNotations.
 Open Scope R_scope.
 
 Section B.
@@ -43,5 +44,65 @@ Proof using.
   intros ? ? ? ? ? ? ? ? Ea Ec. eexists; split.
   - apply (two_theta_is_angle h mn); assumption.
   - rewrite Ea, Ec. apply (two_theta_is_angle h mn); assumption.
+Qed.
+(* ---- operand LAYOUTS.  [ds] is the answer to `set(distance.dims).issubset(drop.dims)`: true when the dims of
+   L2 (= dims of scattered_beam) are among those of the wavelength (in-place accumulation `drop *= distance`), false
+   when scattered_beam has a dimension the wavelength lacks (broadcasting product `drop * distance`).  Two calls on
+   the same physical operands - in any units AND in layouts that take different branches - return the same physical
+   value, each in the dtype [dl] of the wavelength: the dtype contract does not depend on the layout. *)
+Lemma layout_independent_drop_due_to_gravity ds ds' L sL l sl dl (g : V3) sg L' sL' l' sl' (g' : V3) sg' :
+  sL > 0 -> sg > 0 -> sL' > 0 -> sg' > 0 -> is_float dl = true ->
+  L * sL = L' * sL' -> l * sl = l' * sl' -> vscal sg g = vscal sg' g' ->
+  exists p,
+    is_qty h mn (p_drop_due_to_gravity O ds (vnum L sL d_m DF64) (vnum l sl d_m dl) (vvec g sg d_mps2)) p sL d_m dl /\
+    is_qty h mn (p_drop_due_to_gravity O ds' (vnum L' sL' d_m DF64) (vnum l' sl' d_m dl) (vvec g' sg' d_mps2)) p sL' d_m dl.
+Proof using Hh Hm.
+  intros ? ? ? ? ? EL El Eg. eexists; split.
+  - apply (drop_formula h mn Hh Hm); assumption.
+  - rewrite EL, El, Eg. apply (drop_formula h mn Hh Hm); assumption.
+Qed.
+
+(* the reflectometry angle: same physical operands, any units, any two layouts => same angle, in rad, in the dtype
+   of the wavelength *)
+Lemma layout_independent_yz_plane ds ds' (b1 b2 g b1' b2' g' : V3) s1 s2 sg s1' s2' sg' l sl l' sl' dl :
+  s1 > 0 -> s2 > 0 -> sg > 0 -> s1' > 0 -> s2' > 0 -> sg' > 0 -> is_float dl = true ->
+  thr <= vnorm (zproj b1 g) -> 0 < vnorm g -> Rabs (vdot g b1) <= thr * vnorm g ->
+  thr <= vnorm (zproj b1' g') -> 0 < vnorm g' -> Rabs (vdot g' b1') <= thr * vnorm g' ->
+  vscal s1 b1 = vscal s1' b1' -> vscal s2 b2 = vscal s2' b2' -> vscal sg g = vscal sg' g' -> l * sl = l' * sl' ->
+  exists p,
+    is_qty h mn (scattering_angle_in_yz_plane O ds (vvec b1 s1 d_m) (vvec b2 s2 d_m) (vnum l sl d_m dl) (vvec g sg d_mps2)) p 1 d_rad dl /\
+    is_qty h mn (scattering_angle_in_yz_plane O ds' (vvec b1' s1' d_m) (vvec b2' s2' d_m) (vnum l' sl' d_m dl) (vvec g' sg' d_mps2)) p 1 d_rad dl.
+Proof using Hh Hm.
+  intros ? ? ? ? ? ? ? ? ? ? ? ? ? E1 E2 Eg El. eexists; split.
+  - apply (yz_plane_formula h mn Hh Hm); assumption.
+  - rewrite E1, E2, Eg, El. apply (yz_plane_formula h mn Hh Hm); assumption.
+Qed.
+
+(* the optimised path of scattering_angles_with_gravity (incident beam perpendicular to gravity): same physical
+   operands, any units, any two layouts => the same two angles, in rad, in the dtype of the wavelength *)
+Lemma layout_independent_orthogonal ds ds' (b1 b2 g b1' b2' g' : V3) s1 s2 sg s1' s2' sg' l sl l' sl' dl :
+  s1 > 0 -> s2 > 0 -> sg > 0 -> s1' > 0 -> s2' > 0 -> sg' > 0 -> is_float dl = true ->
+  thr <= vnorm (zproj b1 g) -> 0 < vnorm g -> vdot g b1 = 0 ->
+  thr <= vnorm (zproj b1' g') -> 0 < vnorm g' -> vdot g' b1' = 0 ->
+  0 < vnorm (raised (vscal s2 b2) (vscal sg g) (drop h mn (vscal s2 b2) (vscal sg g) (l * sl))) ->
+  vscal s1 b1 = vscal s1' b1' -> vscal s2 b2 = vscal s2' b2' -> vscal sg g = vscal sg' g' -> l * sl = l' * sl' ->
+  exists v1 v2 w1 w2 p1 p2,
+    p_scattering_angles_with_gravity_orthogonal_coords O ds (vvec b1 s1 d_m) (vvec b2 s2 d_m) (vnum l sl d_m dl) (vvec g sg d_mps2)
+    = VDict O [("two_theta", v1); ("phi", v2)]%string /\
+    p_scattering_angles_with_gravity_orthogonal_coords O ds' (vvec b1' s1' d_m) (vvec b2' s2' d_m) (vnum l' sl' d_m dl) (vvec g' sg' d_mps2)
+    = VDict O [("two_theta", w1); ("phi", w2)]%string /\
+    is_qty h mn v1 p1 1 d_rad dl /\ is_qty h mn w1 p1 1 d_rad dl /\
+    is_qty h mn v2 p2 1 d_rad dl /\ is_qty h mn w2 p2 1 d_rad dl.
+Proof using Hh Hm.
+  intros Hs1 Hs2 Hsg Hs1' Hs2' Hsg' Hdl Hz Hg Hp Hz' Hg' Hp' Hc E1 E2 Eg El.
+  destruct (orthogonal_is_construction h mn Hh Hm ds b1 b2 g s1 s2 sg l sl dl Hs1 Hs2 Hsg Hdl Hz Hg Hp Hc)
+    as (v1 & v2 & E & Q1 & Q2).
+  assert (Hc' : 0 < vnorm (raised (vscal s2' b2') (vscal sg' g') (drop h mn (vscal s2' b2') (vscal sg' g') (l' * sl'))))
+    by (rewrite <- E2, <- Eg, <- El; exact Hc).
+  destruct (orthogonal_is_construction h mn Hh Hm ds' b1' b2' g' s1' s2' sg' l' sl' dl Hs1' Hs2' Hsg' Hdl Hz' Hg' Hp' Hc')
+    as (w1 & w2 & E' & Q1' & Q2').
+  rewrite <- E1, <- E2, <- Eg, <- El in Q1', Q2'.
+  exists v1, v2, w1, w2. eexists. eexists.
+  split; [exact E|]. split; [exact E'|]. split; [exact Q1|]. split; [exact Q1'|]. split; [exact Q2 | exact Q2'].
 Qed.
 End B.
